@@ -176,7 +176,43 @@ def rules(ctx, tier):
         for o in x.obs:
             o.scenario = x.scenario
         out.append(x)
+    out.append(one_snapshot_per_read(ctx, rroots))
     return out
+
+
+def one_snapshot_per_read(ctx, rroots):
+    """What a read answers is cut from one version: size, hash and bytes come from ONE look at the index (one hold of
+    the state read lock).  Two lookups, each atomic on its own, let an overwrite slip in between them."""
+    from .. import cfgutil, effects
+    prog = ctx.prog
+    r = Rule("R7", "one snapshot per read: a read entry point takes the state read lock once - everything it answers "
+                   "comes from that one look at the index",
+             "get_range takes the length from a first lookup and the bytes from a second: an overwrite with a longer "
+             "value in between yields V2[s..len(V1)] - bytes of no version")
+    for root in rroots:
+        V = ctx.flat(root)
+        acq = [s for s in V.calls() if (s.path or "") in effects.LOCK_ACQ and effects.LOCK_ACQ[s.path][0] == "read"
+               and not V.blocks[s.bb].get("cleanup")]
+        # acquisitions of the state lock (the guard type mentions the state)
+        state = ctx.anchors.get("STATE")
+        acq = [s for s in acq if state and state.split("::")[-1] in prog.ty_str(V.locals[s.term["dest"]["l"]])]
+        # ... and calls of functions that are not part of the view (another API function, say) which take it themselves
+        for s in V.calls():
+            if V.blocks[s.bb].get("cleanup"):
+                continue
+            for (tg, how) in prog.call_targets(V.orig_site(s)):
+                if how in ("direct", "param") and any(a_[0][0] == "STATE" for a_ in ctx.locks.acquires(tg.path)):
+                    acq.append(s)
+                    break
+        twice = [(a, b) for a in acq for b in acq if a.bb != b.bb and a.term.get("t") is not None
+                 and b.bb in cfgutil.reach(V, a.term["t"])]
+        r.check(bool(acq) and not twice, "one-look:%s" % root.path.split("::")[-1], root,
+                "%s takes the state read lock once (%s)" % (root.path, ", ".join(site_where(s) for s in acq)),
+                "%s looks at the index twice in one call (%s): the two looks can see different versions of the key" % (
+                    root.path, "; ".join("%s then %s" % (site_where(a), site_where(b)) for a, b in twice[:2])
+                    if twice else "no acquisition of the state lock found"))
+    r.need(2, "read entry points")
+    return r.finish()
 
 
 def _can_reach(body, target):
